@@ -31,7 +31,9 @@ impl InjectFormat {
                     ))
                 })
             }
-            InjectFormat::Toml => todo!(),
+            InjectFormat::Toml => Err(CompassConfigurationError::UserConfigurationError(
+                String::from("inject format 'toml' is not implemented, use 'json' or 'string'"),
+            )),
         }
     }
 }
